@@ -1191,6 +1191,13 @@ def d(ctx):
 
 
 # ---------------------------------------------------------------------------
+@R.clause("C12.e", "after an unclean stop the persisted window is not trusted: the first strike-out after a load marks the file 'unknown' before anything else is accepted (shared with C13.e / C13.g)")
+def e_shared(ctx):
+    from . import c13
+    c13.e(ctx)
+    c13.g_load_window(ctx)
+
+
 F = "aiocoap/oscore.py"
 
 _DECRYPT_BLOCK = (
@@ -1245,3 +1252,5 @@ R.seed("C12.d", F, "    def is_initialized(self):\n        return self._index is
 R.seed("C12.d", F, "secctx=self, request_id=request_id, echo=self.echo_recovery", "secctx=self, request_id=request_id, echo=unprotected_message.opt.echo", "challenge reflects the client's value")
 R.seed("C12.d", F, "                self.replay_window_persisted = False\n            else:\n                try:", "                self.replay_window_persisted = False\n                self.recipient_replay_window.initialize_empty()\n            else:\n                try:", "unknown window initialised empty: everything before the crash is accepted again")
 R.seed("C12.d", F, "    _index = None\n", "    _index = 0\n", "fresh window counts as initialised")
+
+R.seed("C12.e", F, "        if self.replay_window_persisted:\n            # Just remove the sequence numbers once from the file\n            self.replay_window_persisted = False\n            self._store()", "        if self.replay_window_persisted:\n            # Just remove the sequence numbers once from the file\n            self._store()\n            self.replay_window_persisted = False", "the file keeps a stale real window: after a crash replays of everything but the first request are accepted")
